@@ -26,7 +26,7 @@ SIGMA = ("\\", ";", ":", ",", '"', "%", "2", "C", "\r", "\n", "a", " ")
 NAMES = ("X-A", "SUMMARY", "ATTENDEE", "A.B", "x-lower", "123", "DTSTART", "BEGINX")
 WRAPS = {"vText": vText, "vUri": vUri, "vCalAddress": vCalAddress, "vInline": vInline}
 V20 = ("v", "", "a:b", "a;b", "a,b", "\\", "a\\", "\\,", "%2C", '"', "BEGIN:VEVENT", "END:VEVENT", "\r\nBEGIN:VEVENT",
-       "a\rb", "x\\;y", "x\\:y", "\\\\", "X=1", "mailto:a@b", " ", "\u00a0v\u00a0", "\tv\t")
+       "a\rb", "x\\;y", "x\\:y", "\\\\", "X=1", "mailto:a@b", " ", "\u00a0v\u00a0", "\tv\t", "\ufeffv")
 P20 = ("p", "", "a:b", "a;b", "a,b", "\\", "a\\", "\\,", "%3A", '"', 'a"b', "a b", "a\rb", "a\nb", "\\;", "\\:", "\\\\",
        "X=1:y", ";X=1", "BEGIN:VEVENT", "\u00a0", "p\u2003", "\ufeffp")
 TYPED = (("vInt", 5), ("vInt", -2147483648), ("vDDD", "dt"), ("vDDD", "date"), ("vDDD", "td"), ("vRecur", None),
